@@ -285,6 +285,23 @@ pub fn death_scenarios(class: &str, topos: &[&str], windows: &[usize], delays: &
     v
 }
 
+/// Multiplies a scenario set by (latency, input program, predictor) variations.
+pub fn vary(scns: Vec<Scenario>) -> Vec<Scenario> {
+    let mut out = Vec::with_capacity(scns.len() * 5);
+    for s in scns {
+        for (lat, prog, pred) in [(0, Program::Changing, Pred::RepeatLast), (2, Program::Runs, Pred::RepeatLast), (3, Program::Changing, Pred::Default), (2, Program::Sparse, Pred::Default)] {
+            let mut x = s.clone();
+            x.latency = lat;
+            x.program = prog;
+            x.pred = pred;
+            x.name = format!("{} [L={lat} {prog:?} {pred:?}]", s.name);
+            out.push(x);
+        }
+        out.push(s);
+    }
+    out
+}
+
 pub fn c07() -> i32 {
     let mut rep = Report::new("C07", "fault_enumeration");
     let t = rep.thorough();
@@ -305,6 +322,8 @@ pub fn c07() -> i32 {
             s.extend(death_scenarios("drop-death-notify-ge-timeout", &["1+1"], &[2], &[0], &[false], 4..8, 1, &[(300, 300), (400, 300)], &[false], CK_DROP));
             s
         };
+        // thorough: the same grid under other latencies, input programs and the other predictor
+        let scns = if t { vary(scns) } else { scns };
         let n = scns.len();
         let cfg = ExploreCfg { k: Some(0), wall: Duration::from_secs(if t { 1200 } else { 40 }), ..Default::default() };
         let out = explore(&scns, &cfg, &judge);
